@@ -8,6 +8,7 @@ import (
 	"go/token"
 	"go/types"
 	"math/big"
+	"strings"
 )
 
 func (v *Verifier) typeOf(e ast.Expr) types.Type {
@@ -1048,6 +1049,9 @@ func (v *Verifier) bytesToStr(s *State, sl *Term) *Term {
 // axiom so that equal windows are equal arrays (extensionality).
 func (v *Verifier) window(s *State, arr, off, n *Term) *Term {
 	off, n = s.normInt(off), s.normInt(n)
+	if v.inQuant > 0 {
+		v.noBoundVars("byte-string window", arr, off, n)
+	}
 	key := arr.String() + "|" + off.String() + "|" + n.String()
 	if w, ok := v.windows[key]; ok {
 		// the defining axiom must be on this path as well
@@ -1393,4 +1397,17 @@ func upperBound(s *State, t *Term) *big.Int {
 		}
 	}
 	return best
+}
+
+// noBoundVars: definitions by fresh constants must not depend on quantified variables.
+func (v *Verifier) noBoundVars(what string, ts ...*Term) {
+	for _, t := range ts {
+		cs := map[string]string{}
+		t.Symbols(cs, map[string]bool{})
+		for k := range cs {
+			if strings.HasPrefix(k, "q_") {
+				unsupported("%s depends on the quantified variable %s: wrap the construction in an opaque spec function and unfold it at the instance", what, k)
+			}
+		}
+	}
 }
